@@ -22,7 +22,9 @@ def run(chk, tier):
         spec_group.check_groups(chk, lib, limit=None if tier == "thorough" else 8)
         spec_group.check_bases(chk, lib, limit=None if tier == "thorough" else 8)
     import e4
-    e4.check(chk, which=("size_bytes",), tier=tier)
+    # run-time sizes are "end of the last member - level start": the chaining of variable-length members (each one located
+    # after its predecessor in schema order) and the member the level size is taken from
+    e4.check(chk, which=("size_bytes", "cursor", "level_size"), tier=tier)
     chk.floor("R-INT sinks", chk.extra.get("rint_sinks", 0), 2000)
     return chk.finish(
         explanation=("R-INT on every expression returned by a std::size_t function and every SBEPP_SIZE_CHECK argument in "
